@@ -2,7 +2,7 @@
 """C16 — tail calls run in constant space (E1 abstract mode): on every path reaching a TailCall
 the operand-stack height above the frame entry is exactly the call's operands (1 for `^`, 2 for
 `^f`), so no iteration leaves cells behind; locals are truncated by the VM."""
-import os, sys
+import json, os, sys
 sys.path.insert(0, os.path.dirname(os.path.dirname(os.path.abspath(__file__))))
 import z3
 from checks.common import Report
@@ -10,6 +10,50 @@ from checks import wellformed
 
 rep = Report("C16")
 wellformed.run("C16", rep, want=("c16",))
+
+# VM side (native measurement at the property's own observation point, complementing the static
+# decision above): the abstract TailCall effect — frame reused, locals truncated to the captures,
+# one argument re-pushed — is what makes "height exactly k at the call" imply constant space.  It is
+# validated on the real executor: terminating tail-recursive programs of each target form are run
+# at N and 50N with profile = true and the peaks must not grow.
+from sqvm.qv import QV
+VM_PROGRAMS = [
+    ("self ^", "f = #'int { | =0 => 0 | [$, 1] __integer_subtract__ ^ }, %d f"),
+    ("self ^ in nested block", "f = #'int { | =0 => 0 | =n => { m = [n, 1] __integer_subtract__, { | m =0 => 0 | m ^ } } }, %d f"),
+    ("pair accumulator", "f = #['int, 'int] { | =[0, acc] => acc | =[n, acc] => [[n, 1] __integer_subtract__, [acc, n] __integer_add__] ^ }, [%d, 0] f"),
+    ("named ^g (mutual)", "g = #'int { | =0 => 0 | [$, 1] __integer_subtract__ ^g }, f = #'int { ^g }, %d f"),
+    ("closure capture", "k = 1, f = #'int { | =0 => 0 | [$, k] __integer_subtract__ ^ }, %d f"),
+    ("binary dropped per iteration", "f = #['int, 'bin] { | =[0, b] => b | =[n, b] => [[n, 1] __integer_subtract__, [b, 0x00] __binary_concat__ [~, 0, 1] __binary_slice__] ^ }, [%d, 0xff] f"),
+]
+with QV() as qv:
+    measured = 0
+    for label, tmpl in VM_PROGRAMS:
+        peaks = []
+        for n in (40, 2000):
+            c = qv.compile(tmpl % n, dump=False)
+            if not c.get("ok"):
+                peaks = None
+                break
+            r = qv.req(op="run", h=c["h"], profile=True, max_steps=20_000_000)
+            if "value" not in r.get("result", {}):
+                rep.inconc("VM-side measurement: accepted program (%s) does not evaluate at N=%d: %s" % (
+                    label, n, json.dumps(r.get("result"))[:160]))
+                peaks = None
+                break
+            peaks.append((r["peaks"]["stack"], r["peaks"]["locals"], r["peaks"]["frames"], r.get("heap_slots", 0)))
+        if peaks is None:
+            continue        # the current compiler rejects this shape: nothing to measure
+        measured += 1
+        rep.obligations += 1
+        if peaks[0] == peaks[1]:
+            rep.discharged += 1
+        else:
+            rep.violation("vm-peaks:%s" % label,
+                          "tail-recursive program (%s) uses more space at N=2000 than at N=40 on the real executor: "
+                          "(stack, locals, frames, heap slots) %s -> %s; program: %s" % (label, peaks[0], peaks[1], tmpl % 2000),
+                          {"program": tmpl, "peaks_n40": peaks[0], "peaks_n2000": peaks[1]})
+    rep.validated += measured
+    rep.extra["vm_side_programs_measured"] = measured
 rep.assumptions = [
     "VM side: handle_tail_call truncates locals to base(+captures) and replaces the frame (restated in sqvm/machine.py, validated against the real executor)",
     "heap reclamation of binaries dropped by earlier iterations is not decided here (C06 kernel)",
